@@ -156,7 +156,13 @@ def gen_assets(rng):
     for p, k in zip(pols, counts):
         names = []
         while len(names) < k:
-            n = rng.choice(NAMES) if rng.random() < 0.7 else rbytes(rng, rng.randint(0, 32))
+            r2 = rng.random()
+            if r2 < 0.12:
+                n = rng.choice(pols)                 # a token named after a policy id (its own or a neighbour's): same bytes, other role
+            elif r2 < 0.16:
+                n = rng.choice(base)                 # ... after a well-known 28-byte hash other UTxOs use as policy / credential
+            else:
+                n = rng.choice(NAMES) if rng.random() < 0.7 else rbytes(rng, rng.randint(0, 32))
             if n not in names:
                 names.append(n)
         out.append([p.hex(), [[n.hex(), rng.choice(QTY)] for n in names]])
